@@ -338,6 +338,19 @@ ERROR_TEMPLATES = [
 ]
 
 
+def _splice_nest(n, core):
+    t = core
+    for _ in range(n):
+        t = '"%%( ' + t + ' %%)"'
+    return t
+
+
+# the limit on nested format strings is reached in the innermost literal: by another %( %), by each directive (their
+# sub-parsers are started from different lexer actions), one level before, at and beyond the limit
+ERROR_TEMPLATES += ["%s " + _splice_nest(n, core) for n in (98, 99, 100, 130)
+                    for core in ('"%%s"', '"a%%xb"', '"%%o%%b"', '"%%d"', '"%%( 1 %%)"', '"%%( ( %%)"', '1')]
+
+
 # ------------------------------------------------- run-time failures inside every kind of sub-expression
 
 FAILERS = ["drop drop", "(drop drop, 1)", "(1, drop drop)", "((2, 3) swap drop drop drop)", "[5] elem drop drop", "\"%s%s\"",
